@@ -16,7 +16,7 @@ type latticePoint struct{ Field, Value string }
 const c16Bases = 6
 
 var intLattice = []string{"<absent>", "0", "-1", "1", "2147483647", "10%", "0%", "200%", "abc%", "50"}
-var durLattice = []string{"<absent>", "0s", "-1s", "1s", "10m"}
+var durLattice = []string{"<absent>", "0s", "-1s", "500ms", "1s", "10m"}
 var i32Lattice = []string{"<absent>", "0", "-1", "1", "2147483647"}
 var boolLattice = []string{"<absent>", "true", "false"}
 
@@ -275,5 +275,5 @@ func init() {
 	lat := c16Lattice()
 	register(&Profile{Name: "C16", Decide: []string{"C16"}, Quick: len(lat) * c16Bases, Thorough: len(lat)*c16Bases + len(lat)*len(lat)*c16Bases, Gen: genC16, Body: bodyC16,
 		NonVacuous: []string{"C16.defaulting", "C16.invalid-spec", "C12.write"}, Chunk: 20,
-		Rule: fmt.Sprintf("Boundary lattice of every strategy field (%d points: absent, 0, negative, 1, huge, percent, 0%%, 200%%, malformed percent; durations absent/0/negative/positive; booleans; validation mode unset/auto/manual; canary block absent; template name set) applied to 6 base configurations (all defaults, explicit auto canary, manual validation, controller-level default manual, fully spelled-out spec, manual validation with auto-pause and auto-fail disabled), both node-assignment modes; quick enumerates every single-field point, thorough also every pair; each spec goes through a scripted history (deploy across slow-start slots, template change, the manifest applied again with the replica sets reconciled before the re-defaulting, canary with a restarting pod, time-out, validation) on the fake clock with every reconcile recovered and the worker process watched for crashes of child goroutines.", len(lat))})
+		Rule: fmt.Sprintf("Boundary lattice of every strategy field (%d points: absent, 0, negative, 1, huge, percent, 0%%, 200%%, malformed percent; durations absent/0/negative/sub-second/positive; booleans; validation mode unset/auto/manual; canary block absent; template name set) applied to 6 base configurations (all defaults, explicit auto canary, manual validation, controller-level default manual, fully spelled-out spec, manual validation with auto-pause and auto-fail disabled), both node-assignment modes; quick enumerates every single-field point, thorough also every pair; each spec goes through a scripted history (deploy across slow-start slots, template change, the manifest applied again with the replica sets reconciled before the re-defaulting, canary with a restarting pod, time-out, validation) on the fake clock with every reconcile recovered and the worker process watched for crashes of child goroutines.", len(lat))})
 }
